@@ -70,7 +70,7 @@ class backend:
 
 
 # ---------------------------------------------------------------- 1. nonce_once
-NONCE_OPS = ["gen", "sign", "sign", "sign", "sign-wrong-key", "sign-bad-session", "verify", "agg", "toggle", "copy-sign"]
+NONCE_OPS = ["gen", "sign", "sign", "sign", "sign-view", "sign-wrong-key", "sign-bad-session", "verify", "agg", "toggle", "copy-sign"]
 
 
 @st.composite
@@ -179,6 +179,9 @@ def check_nonce(case):
                         nz["sec"][:64] = bytes(64)
                         tags.add("copy")
                         continue
+                if kind == "sign-view":
+                    # the caller's bytearray seen through a writable memoryview: the same memory, so the same nonce
+                    arg = memoryview(nz["sec"])
                 try:
                     out = musig2.sign(arg, key, ctx)
                     err = None
